@@ -105,7 +105,7 @@ def main2(args, scratch):
     out = os.path.join(V, "seeded", name)
     os.makedirs(out, exist_ok=True)
     for f in ("patch.diff", "demo.cpp", "notes.txt"):
-        if os.path.exists(os.path.join(sd, f)):
+        if os.path.exists(os.path.join(sd, f)) and os.path.abspath(sd) != os.path.abspath(out):
             shutil.copy(os.path.join(sd, f), os.path.join(out, f))
     json.dump(meta, open(os.path.join(out, "meta.json"), "w"), indent=1)
     print(json.dumps({k: meta[k] for k in ("name", "confirmed", "caught_by", "caught_with_failing_input")}, indent=0))
